@@ -199,6 +199,32 @@ var entries = []*entry{
 		w.verify(&out)
 		return
 	}},
+	// the natural server sequence: one filter instance is validated against the message type and then used
+	{name: "Validate+Filter", run: func(in *input) (out outcome) {
+		mask := in.mask()
+		var w watcher
+		w.add("mask", mask)
+		m := clone(in.msgs[0])
+		f := newFilter(in, mask)
+		_ = f.Validate(m)
+		f.Filter(m)
+		out.obs = append(out.obs, obs{"", m, in.msgs[0]})
+		w.verify(&out)
+		return
+	}},
+	{name: "Validate+FilterClone", run: func(in *input) (out outcome) {
+		mask := in.mask()
+		var w watcher
+		w.add("mask", mask)
+		m := clone(in.msgs[0])
+		w.add("input", m)
+		f := newFilter(in, mask)
+		_ = f.Validate(m)
+		got := f.FilterClone(m)
+		out.obs = append(out.obs, obs{"", got, in.msgs[0]})
+		w.verify(&out)
+		return
+	}},
 	{name: "FilterClone(nil)", rare: true, run: func(in *input) (out outcome) {
 		mask := in.mask()
 		got := newFilter(in, mask).FilterClone(nil)
@@ -389,6 +415,35 @@ var entries = []*entry{
 		}
 		sc, _ := c.Get("c")
 		out.obs = append(out.obs, obs{"new", ev.NewValue, w.add("stored[c]", sc)})
+		if !bp {
+			// a merged event: while the reader is not receiving, a is updated (that event occupies the forwarder), then c is
+			// deleted and added again; the two changes of c reach the reader as one REPLACE whose old and new values are
+			// projections like any other
+			sa2 := sa1
+			if _, err := c.Update("a", clone(in.msgs[0])); err != nil {
+				panic("harness: Collection.Update failed: " + err.Error())
+			}
+			vk.Quiesce()
+			if _, err := c.Delete("c"); err != nil {
+				panic("harness: Collection.Delete failed: " + err.Error())
+			}
+			if _, err := c.Add("c", clone(in.msgs[2])); err != nil {
+				panic("harness: Collection.Add failed: " + err.Error())
+			}
+			vk.Quiesce()
+			if ev = next("update a (before the merged event)", types.ChangeType_UPDATE, "a"); ev == nil {
+				finish()
+				return
+			}
+			sa3, _ := c.Get("a")
+			out.obs = append(out.obs, obs{"new", ev.NewValue, w.add("stored[a]''", sa3)}, obs{"old", ev.OldValue, sa2})
+			if ev = next("replace c (remove and add merged)", types.ChangeType_REPLACE, "c"); ev == nil {
+				finish()
+				return
+			}
+			sc2, _ := c.Get("c")
+			out.obs = append(out.obs, obs{"new", ev.NewValue, w.add("stored[c]'", sc2)}, obs{"replaced-old", ev.OldValue, sc})
+		}
 		finish()
 		return
 	}},
